@@ -91,6 +91,16 @@ def main():
     any_mismatch = []
     all_digests = {}
     foreign = {}
+    unreproduced = []   # failures of a whole-stream run that three solo re-runs of the same script did not show again
+
+    def reproduces(driver, case, pred, model_driver=None):
+        """A failure is reported only if the script shows it again when it is run on its own (every replay has to): the real
+        sockets, timers and the kernel's scheduling make a few observations depend on the machine's load."""
+        for k in range(3):
+            r = vlib.run_pipeline(driver, [case], bs, tag="repro", model_driver=model_driver)
+            if getattr(r, "crash", None) or pred(r):
+                return True
+        return False
 
     def handle_stream(name, driver, cases, model_driver=None):
         nonlocal evaluations, n_cases, distinct, nontrivial, exit_code
@@ -149,6 +159,10 @@ def main():
                     if oo["case"] == idx and oo["clause"] == clause:
                         return True
                 return False
+            if not reproduces(driver, (case[0], case[1][:o["step"] + 1]), lambda r: want(r, 0), model_driver):
+                seen_groups.discard(key)
+                unreproduced.append(dict(kind="oracle", stream=name, clause=str(clause), script=case[1][:o["step"] + 1], detail=o["detail"][:300]))
+                continue
             small = vlib.shrink(driver, (case[0], case[1][:o["step"] + 1]), want, bs, model_driver=model_driver)
             r2 = vlib.run_pipeline(driver, [small], bs, tag="final", model_driver=model_driver)
             rp = vlib.write_replay(pid, seed, dict(
@@ -161,8 +175,16 @@ def main():
             print("VIOLATION property=%s replay=%s" % (pid, rp))
             violations.append(("oracle", clause, rp))
             exit_code = 1
+        seen_mm = set()
         for m in res.mismatches:
-            any_mismatch.append((name, driver, cases[m["case"]], m))
+            if m["case"] in seen_mm:
+                continue
+            seen_mm.add(m["case"])
+            c = cases[m["case"]]
+            if len(any_mismatch) < 3 and not reproduces(driver, c, lambda r: bool(r.mismatches), model_driver):
+                unreproduced.append(dict(kind="mismatch", stream=name, script=c[1][:m["step"] + 1], model=m["model"][:200], impl=m["impl"][:200]))
+                continue
+            any_mismatch.append((name, driver, c, m))
 
     for st in streams:
         handle_stream(*st)
@@ -230,6 +252,7 @@ def main():
         exhaustive=bool(getattr(mod, "EXHAUSTIVE", {}).get(tier, False)),
         correspondence_mismatches=len(any_mismatch), known_findings_hit=sorted(known_printed),
         clauses_of_sibling_properties_hit=foreign,
+        unreproduced_observations=unreproduced[:10], unreproduced_count=len(unreproduced),
     )
     if coqchk_note:
         coverage["coqchk"] = coqchk_note
